@@ -73,9 +73,27 @@ Nest(d, inner, after) ==
     ELSE SFor(TVar(IF d = 2 THEN "i2" ELSE "i3"), AVar("xs"), <<Nest(d - 1, inner, <<>>)>> \o after)
 
 (* setup chunk: container, access paths, helper functions *)
+(* the state the container is in when it is iterated: as created; emptied in place (its storage is
+   kept); grown well beyond its first allocation *)
+Preps == {"fresh", "emptied", "grown"}
+Prep(c) ==
+    IF c.prep = "emptied" THEN <<SExpr(AMCall(AVar("xs"), "clear", <<>>))>>
+    ELSE IF c.prep = "grown" THEN
+        <<SFor(TVar("g"), ACall(AVar("range"), <<AInt(10), AInt(40)>>),
+               <<IF c.kind = "list" THEN SExpr(AMCall(AVar("xs"), "append", <<AVar("g")>>))
+                 ELSE IF c.kind = "set" THEN SExpr(AMCall(AVar("xs"), "add", <<AVar("g")>>))
+                 ELSE SAssign(TIndex(AVar("xs"), AVar("g")), AVar("g"))>>),
+          \* back to the original three entries, in place
+          SFor(TVar("g"), ACall(AVar("range"), <<AInt(10), AInt(40)>>),
+               <<IF c.kind = "list" THEN SExpr(AMCall(AVar("xs"), "pop", <<>>))
+                 ELSE IF c.kind = "set" THEN SExpr(AMCall(AVar("xs"), "remove", <<AVar("g")>>))
+                 ELSE SExpr(AMCall(AVar("xs"), "pop", <<AVar("g")>>))>>)>>
+    ELSE <<>>
+
 Setup(c) ==
-    <<SAssign(TVar("xs"), Container(c.kind)),
-      SAssign(TVar("ys"), AVar("xs")),
+    <<SAssign(TVar("xs"), Container(c.kind))>> \o Prep(c) \o
+    <<
+SAssign(TVar("ys"), AVar("xs")),
       SAssign(TVar("box"), AList(<<AVar("xs")>>)),
       SDef("mutate", <<>>, <<Mut(c.kind, c.mut, c.via), SReturn(AInt(0))>>),
       SDef("boom", <<>>, <<SReturn(ABin("//", AInt(1), AInt(0)))>>),
@@ -141,10 +159,15 @@ Valid(c) ==
     /\ (c.kind = "set" => c.cons # "dictcompr" \/ TRUE)
     /\ (c.exit = "attempt_outer" => c.depth >= 2)
     /\ (c.direct => c.exit \in {"attempt", "attempt_outer"})
+    \* an emptied container is iterated to exhaustion (zero rounds); afterwards it must be mutable;
+    \* a grown one goes through the single-loop cases
+    /\ (c.prep = "emptied" => c.via = "name" /\ ((c.cons \in {"for", "compr", "dictcompr"} /\ c.exit = "exhaust")
+                                                  \/ c.cons \in {"sortedkey", "mapf", "filterf"}))
+    /\ (c.prep = "grown" => c.via = "name" /\ c.depth = 1 /\ c.cons \in {"for", "compr", "sortedkey", "mapf"})
 
 CONSTANT MaxDepth
 Cases == {c \in [kind : Kinds, cons : Conses, mut : MutsOf("list") \cup MutsOf("dict") \cup MutsOf("set"), via : Vias,
-                 exit : Exits, depth : 1..MaxDepth, direct : BOOLEAN] : Valid(c)}
+                 exit : Exits, depth : 1..MaxDepth, direct : BOOLEAN, prep : Preps] : Valid(c)}
 
 Expected(c) == RunSession(Session(c), 50, TRUE)
 
@@ -184,7 +207,7 @@ OrigEnc(kind) == IF kind = "list" THEN [t |-> "list", v |-> <<EI(1), EI(2), EI(3
                  ELSE IF kind = "set" THEN [t |-> "set", v |-> <<EI(1), EI(2), EI(3)>>]
                  ELSE [t |-> "dict", k |-> <<[t |-> "str", s |-> K_a], [t |-> "str", s |-> K_b], [t |-> "str", s |-> K_c]>>,
                                      v |-> <<EI(1), EI(2), EI(3)>>]
-Intact == (exp[2].kind = "iter_mutation") => exp[3].out[1] = OrigEnc(case.kind)
+Intact == (exp[2].kind = "iter_mutation" /\ case.prep # "emptied") => exp[3].out[1] = OrigEnc(case.kind)
 
 PrintCase == (i = 1) => PrintT(<<"CASE", ToJson([class |-> case, chunks |-> Session(case), exp |-> exp])>>)
 =============================================================================
